@@ -348,7 +348,10 @@ pcgstrf_MemInit(int_t n, int_t annz, superlumt_options_t *superlumt_options,
 		SUPERLU_FREE(lsub);
 		SUPERLU_FREE(usub);
 	    } else {
-		cuser_free(nzumax*dword+(nzlmax+nzumax)*iword, HEAD);
+		/* pop, last first, only what the failed attempt did push */
+		if ( usub ) cuser_free(nzumax*iword, HEAD);
+		if ( lsub ) cuser_free(nzlmax*iword, HEAD);
+		if ( ucol ) cuser_free(nzumax*dword, HEAD);
 	    }
 	    nzumax /= 2;    /* reduce request */
 	    nzlmax /= 2;
